@@ -84,7 +84,7 @@ PROPS["C01"] = {
     "technique": "deterministic two-agent simulation of the real agents over an in-memory switch with a harness-driven scheduler (parked check ticker, per-datagram deliver/drop/duplicate), convergence/mirror oracle computed from the harness topology, monitors after every step",
     "level_text": "Seeded exploration of topologies (1-4 host addresses per side, IPv4/IPv6, static NAT with srflx-like signalling or peer-reflexive discovery, one-way and full partitions) x "
                   "message schedules (reorder, drop, duplicate, trickle order, tick interleaving within the retry budget) followed by a fair loss-free suffix; verdict from logical steps, not time.",
-    "level_note": "Host candidates over a fake transport.Net (no real sockets, no srflx/relay gathering, UDP only); schedules are sampled; runs slower than 3 s are not judged (4 s transaction expiry is wall-clock).",
+    "level_note": "Host candidates over a fake transport.Net (no real sockets, no srflx/relay gathering); UDP everywhere, simulated ICE-TCP passive candidates in the C02/C06 sessions only; schedules are sampled; runs slower than 3 s are not judged (4 s transaction expiry is wall-clock).",
     "rule": "case = (topology, signalling plan, scheduler choices) from PRNG(VERIF_SEED, shard, index); non-trivial = the run executed; distinct_nontrivial counts distinct "
             "(|A|,|B|,#NAT,#cuts,v6,#bidirectional pairs,budget,chaos-length bucket) classes",
     "assumptions": ["static 1:1 NAT (full cone)", "acceptance waits and liveness timeouts set to 0 so that nothing depends on the wall clock"],
@@ -110,7 +110,7 @@ PROPS["C06"] = {
     "technique": "structural-invariant monitor: after every simulation step the checklist, id index, candidate maps and pending transactions are walked inside a task-loop task and cross-checked with the public views; before/after comparison around every prflx supersession and Restart",
     "level_text": "Histories over random topologies with duplicate trickle, prflx-then-signalled and signalled-then-prflx orders, remote IP filters (signalled and peer-reflexive sources), "
                   "coordinated Restart at random steps, Failed via millisecond timeouts, and Restart racing a running gather cycle with seeded pauses at the task-loop hand-off (hook H2).",
-    "level_note": "Invariants are evaluated only at quiescent points under the agent's own serialisation. UDP host candidates only; TCP-active remotes are exercised through the add path only.",
+    "level_note": "Invariants are evaluated only at quiescent points under the agent's own serialisation. UDP host candidates plus, in a third of the sessions, simulated ICE-TCP passive locals; TCP-active remotes are exercised through the add path only (no TCP connection is dialled in the simulation).",
     "rule": "case = one session history (all monitors after every step); distinct_nontrivial counts distinct (variant, |A|, |B|, #NAT, #cuts, length bucket) classes",
     "assumptions": ["pair ids are compared within one generation (shadow map reset at Restart)"],
 }
@@ -139,7 +139,7 @@ PROPS["C07"] = {
                   "One read in six uses a slice of 1-11 bytes (io.ErrShortBuffer with n > 0: the bytes handed over are counted, the datagram is consumed); "
                   "about one session in three has a flood step: 1000 datagrams of 1200 B arrive while nobody reads (the 1 MB receive buffer overflows), after which Conn.BytesReceived and the selected pair's "
                   "packet/byte counters must have advanced by exactly what the reader finally gets.",
-    "level_note": "UDP only: 'known address on the other transport' cannot be produced in the simulation and is not covered. Outside the flood step readers are drained after every step via the packet buffer count, so Read never blocks.",
+    "level_note": "All data travels over UDP pairs. 'Known on the other transport' is produced as UDP datagrams from an address the agent knows only as a remote TCP candidate (must be discarded); application data over a selected TCP pair is not exercised. Outside the flood step readers are drained after every step via the packet buffer count, so Read never blocks.",
     "rule": "case = one session history with data steps; distinct_nontrivial counts (|A|,|B|,#NAT,#cuts,restart,payloads-read bucket) classes; counters give writes, eligible and ineligible inbound payloads",
     "assumptions": ["a payload 'parses as STUN' iff stun.IsMessage accepts it"],
 }
@@ -165,7 +165,7 @@ PROPS["C02"] = {
     "level_text": "Grammar-based forger: class x method x USERNAME form (correct, swapped, wrong, absent, previous generation, prefix, trailing colon) x integrity key (correct, other side's, wrong, previous generation, absent) x "
                   "transaction id (fresh, outstanding, already answered, previous generation) x source (known remote, unknown, the request's destination) x random subset/order of ICE attributes; injected before start of checks, "
                   "while checking, when connected and after a coordinated Restart, 15-40 injections per history. Expected effect is derived from first principles (which credential verifies, whether the transaction is outstanding and symmetric).",
-    "level_note": "UDP only, so 'known address on the other transport' is not produced. Valid requests and valid, transaction-matched, symmetric responses are not judged by this monitor (C03 does). "
+    "level_note": "'Known on the other transport' is produced as UDP datagrams from an address the agent knows only as a remote TCP candidate, and as forged checks arriving at simulated TCP passive candidates. Valid requests and valid, transaction-matched, symmetric responses are not judged by this monitor (C03 does). "
                   "Attributes placed after MESSAGE-INTEGRITY are not generated.",
     "rule": "case = one session history with forged-message steps; distinct_nontrivial counts distinct injection classes (kind, username form, key, transaction kind, source kind, expected effect, agent state at injection)",
     "assumptions": ["liveness refresh by a correctly signed response from a known remote is allowed (the statement restricts pair state only)"],
@@ -234,7 +234,7 @@ PROPS["C12"] = {
                   "(non-STUN, STUN with five USERNAME forms, without USERNAME, undecodable), RemoveConnByUfrag, handle Close, mux Close; both the net.PacketConn and the netip.AddrPort I/O flavours of the handle. "
                   "Concurrent: readers, writers, feeder, removers and closers with seeded pauses at hook H2. One history in three goes through UniversalUDPMuxDefault (inbound XOR-MAPPED-ADDRESS responses included); "
                   "separate histories drive MultiUDPMuxDefault over 2-3 muxes (per-address GetConn, probes per socket, RemoveConnByUfrag on all, Close of all).",
-    "level_note": "UniversalUDPMuxDefault / MultiUDPMuxDefault wrap the same UDPMuxDefault and are not driven separately. In the sequential mode the close-watcher goroutine is awaited before the next operation.",
+    "level_note": "UniversalUDPMuxDefault (incl. GetXORMappedAddr and XOR-mapped inbound routing) and MultiUDPMuxDefault are driven by their own variants with the same reference routing table; their wrapping layers beyond routing (e.g. interface enumeration of NewMultiUDPMuxFromPort) are not. In the sequential mode the close-watcher goroutine is awaited before the next operation.",
     "rule": "case = one operation sequence; distinct_nontrivial counts (mux flavour, #ufrags, length bucket, #connections) classes and concurrent read-distribution classes",
     "assumptions": ["'after it is removed' covers RemoveConnByUfrag while handles are still open"],
 }
